@@ -11,6 +11,7 @@ pub mod scene;
 pub mod c04_cover;
 pub mod c05_frag;
 pub mod c06_order;
+pub mod c07_flags;
 pub mod layers;
 pub mod rast;
 pub mod c12_tex;
@@ -25,6 +26,7 @@ pub fn lookup(prop: &str) -> Option<MonFn> {
         "C04" => c04_cover::run,
         "C05" => c05_frag::run,
         "C06" => c06_order::run,
+        "C07" => c07_flags::run,
         "C12" => c12_tex::run,
         _ => return None,
     })
